@@ -81,7 +81,11 @@ func RunNrf(prefix, in, out string) error {
 					}
 				}
 				panic(http.ErrAbortHandler)
-			case "200":
+			case "200", "200t", "200f":
+				// (profile replaced: no Location; the returned profile may carry the NRF's OAuth2 setting as well)
+				if a != "200" {
+					profile["customInfo"] = map[string]any{"oauth2": a == "200t"}
+				}
 				wr.Header().Set("Content-Type", "application/json")
 				wr.WriteHeader(200)
 				_ = json.NewEncoder(wr).Encode(profile)
